@@ -42,8 +42,13 @@ def prov(e, binds):
         if e.id in ("self", "other"):
             return e.id
         return binds.get(e.id)
+    if isinstance(e, ast.IfExp):
+        a, b = prov(e.body, binds), prov(e.orelse, binds)
+        return a if a == b else None
     if isinstance(e, ast.Call):
         fn = unparse(e.func)
+        if fn in ("it.repeat", "repeat", "itertools.repeat") and len(e.args) == 1:
+            return prov(e.args[0], binds)          # the same operand for every element
         if fn in ("iter", "cls", "Stream", "list", "tuple") and e.args:
             a = e.args[0]
             if isinstance(a, (ast.List, ast.Tuple)) and len(a.elts) == 1:
@@ -57,9 +62,22 @@ def prov(e, binds):
 def applications(dunder):
     """[(tuple of provenances, node)] for every application of op_func in the template's inner function."""
     out = []
+    # locals bound once to a view of one operand (self_data = iter(self))
+    local = {}
+    cnt = {}
+    for a_ in ast.walk(dunder):
+        if isinstance(a_, ast.Name) and isinstance(a_.ctx, ast.Store):
+            cnt[a_.id] = cnt.get(a_.id, 0) + 1
+    for _ in range(3):
+        for a_ in ast.walk(dunder):
+            if isinstance(a_, ast.Assign) and len(a_.targets) == 1 and isinstance(a_.targets[0], ast.Name) \
+                    and cnt.get(a_.targets[0].id) == 1 and a_.targets[0].id not in ("self", "other"):
+                pv_ = prov(a_.value, local)
+                if pv_ is not None:
+                    local[a_.targets[0].id] = pv_
     for n in ast.walk(dunder):
         if isinstance(n, ast.Call) and unparse(n.func) in ("xmap", "map") and n.args and unparse(n.args[0]) == "op_func":
-            out.append((tuple(prov(a, {}) for a in n.args[1:]), n))
+            out.append((tuple(prov(a, local) for a in n.args[1:]), n))
         elif isinstance(n, ast.Call) and unparse(n.func) in ("xmap", "map") and n.args and (
                 isinstance(n.args[0], ast.Lambda) or (isinstance(n.args[0], ast.Name) and n.args[0].id != "op_func")):
             lams = [n.args[0]] if isinstance(n.args[0], ast.Lambda) else [
@@ -154,7 +172,7 @@ def run(chk, repo):
                 napp += 1
                 chk.decide(pv == want[kind], "C01.order", W, "%s with operands from %s" % (short(node, 70), pv),
                            why="operands must come from %s: a.__r<op>__(b) computes b <op> a" % (want[kind],), node=node)
-    chk.floor("C01.order", napp, 12, "operator applications")
+    chk.floor("C01.order", napp, 9, "operator applications (at least one per template; 12 on the confirmed tree)")
 
     # --------------------------------------------------------------- C01.table
     chk.rule("C01.table", "folded operator table vs the Python data model: rev, arity, dunder name and operator function "
@@ -238,20 +256,40 @@ def run(chk, repo):
         inner = [f for f in t.body if isinstance(f, FuncTypes)][0]
         W = "%s:StreamMeta.%s" % (smod.relpath, kind)
         rets = [n for n in own_nodes(inner) if isinstance(n, ast.Return) and unparse(n.value) != "NotImplemented"]
+        # locals bound once in the template (self_data = iter(self)) are read through
+        once_ = {}
+        for a_ in own_nodes(inner):
+            if isinstance(a_, ast.Assign) and len(a_.targets) == 1 and isinstance(a_.targets[0], ast.Name):
+                once_.setdefault(a_.targets[0].id, []).append(a_.value)
+
+        def through(e_):
+            while isinstance(e_, ast.Name) and len(once_.get(e_.id, [])) == 1:
+                e_ = once_[e_.id][0]
+            return e_
+
+        def lazy_source(e_):
+            e_ = through(e_)
+            if isinstance(e_, ast.IfExp):
+                return lazy_source(e_.body) and lazy_source(e_.orelse)
+            return isinstance(e_, ast.Call) and (unparse(e_.func) == "iter" or (
+                canon_call(smod, e_) in ("itertools.repeat", "repeat") and len(e_.args) == 1))
         for r in rets:
             v = r.value
             ok = isinstance(v, ast.Call) and base_name(canon(smod, v.func)) == "Stream" and len(v.args) == 1 \
                 and isinstance(v.args[0], ast.Call) and canon_call(smod, v.args[0]) == "map"
             if ok:
                 its = v.args[0].args[1:]
-                ok = all(isinstance(a, ast.Call) and unparse(a.func) == "iter" for a in its)
+                ok = all(lazy_source(a) for a in its)
             chk.decide(ok, "C01.lazy-shortest", W, short(r), why="result must be a Stream over the builtin lazy map of "
                        "iterators: anything else changes where the result ends or evaluates eagerly", node=r)
         if kind != "__unary__":
-            ifs = [s for s in docstring_free(inner.body) if isinstance(s, ast.If)]
-            ok = len(ifs) == 2 and unparse(ifs[1].test) == "isinstance(other, Iterable)" and len(rets) == 2
+            # one return per kind of operand, or one return whose second source is chosen by the kind (C01.dispatch says
+            # which source goes with which kind)
+            tests_ = [n_ for n_ in own_nodes(inner) if isinstance(n_, (ast.If, ast.IfExp))
+                      and unparse(n_.test) in ("isinstance(other, Iterable)", "not isinstance(other, Iterable)")]
+            ok = len(tests_) == 1 and len(rets) in (1, 2)
             chk.decide(ok, "C01.lazy-shortest", W, "iterable operands are zipped, others repeated: " +
-                       (unparse(ifs[1].test) if len(ifs) > 1 else "?"),
+                       (unparse(tests_[0].test) if tests_ else "?"),
                        why="iterables must be paired element by element, non-iterables closed over", node=inner)
     # which arm for which operand, and the operator registry (decision tables)
     from ..dtable import Facts, walk
@@ -271,13 +309,28 @@ def run(chk, repo):
                                  ({"list", "Iterable"} if ok_kind == "iterable" else {"float"})},
                           types={"Iterable", "cls.__ignored_classes__"})
                 w = walk(docstring_free(inner.body), F, "StreamMeta." + kind)
-                last = unparse(w.last) if w.last is not None else w.end
+                last_node = w.last
+                if last_node is not None and isinstance(last_node, ast.Return) and last_node.value is not None:
+                    # locals of the path taken are written out (other_data = iter(other) / repeat(other))
+                    env_ = {}
+                    for st_ in w.ran:
+                        if isinstance(st_, ast.Assign) and len(st_.targets) == 1 and isinstance(st_.targets[0], ast.Name):
+                            env_[st_.targets[0].id] = st_.value
+
+                    class _W(ast.NodeTransformer):
+                        def visit_Name(self_, n_):
+                            if isinstance(n_.ctx, ast.Load) and n_.id in env_:
+                                return ast.parse(unparse(env_[n_.id]), mode="eval").body
+                            return n_
+                    last_node = ast.Return(value=_W().visit(ast.parse(unparse(last_node.value), mode="eval").body))
+                last = unparse(last_node) if last_node is not None else w.end
+                repeated = "lambda" in last or "repeat(%s)" % o_ in last
                 if ok_kind == "ignored":
                     okd = last == "return NotImplemented"
                 elif ok_kind == "iterable":
-                    okd = w.end == "return" and "iter(%s)" % o_ in last and "lambda" not in last
+                    okd = w.end == "return" and "iter(%s)" % o_ in last and not repeated
                 else:
-                    okd = w.end == "return" and "lambda" in last and "iter(%s)" % o_ not in last
+                    okd = w.end == "return" and repeated and "iter(%s)" % o_ not in last
                 chk.decide(okd, "C01.dispatch", Wd, "<%s> operand -> %s" % (ok_kind, last[:80]),
                            why="ignored classes get NotImplemented (so that their own reflected operator runs), iterables "
                                "are paired element by element, anything else is repeated", node=inner)
@@ -339,7 +392,14 @@ def run(chk, repo):
         inner = [f for f in t.body if isinstance(f, FuncTypes)][0]
         W = "%s:StreamMeta.%s" % (smod.relpath, kind)
         maps = [n for n in ast.walk(inner) if isinstance(n, ast.Call) and canon_call(smod, n) == "map" and len(n.args) == 2]
-        chk.require(maps, "%s: scalar arm (map of a one-argument function) not found" % W)
+        if not maps:
+            # no closure at all: the operand is handed to op_func itself, repeated for every element
+            reps_ = [n for n in ast.walk(inner) if isinstance(n, ast.Call) and canon_call(smod, n) in ("itertools.repeat", "repeat")
+                     and [unparse(a_) for a_ in n.args] == [inner.args.args[1].arg]]
+            chk.require(reps_, "%s: scalar arm (map of a one-argument function, or the operand repeated) not found" % W)
+            chk.ok("C01.closure", W, "no closure: %s feeds the operand of this call to every element" % short(reps_[0]),
+                   node=reps_[0])
+            continue
         for mcall in maps:
             f = mcall.args[0]
             sources = [f]
